@@ -1,6 +1,7 @@
 (* Property C05 — serialization and persistence round trip.  Statements only; proofs in Proofs/. *)
 From PG Require Import Common.Tactics Model.Json Model.MemFS Model.MemSeq Proofs.JsonProofs Proofs.JsonStrProofs
-  Proofs.MemFSPaths Proofs.MemFSTree Proofs.MemFSProofs Proofs.MemFSPure Proofs.MemSeqProofs.
+  Proofs.MemFSPaths Proofs.MemFSTree Proofs.MemFSProofs Proofs.MemFSPure Proofs.MemSeqProofs
+  Model.JsonFields Gen.JsonFields Proofs.JsonFieldsProofs Proofs.JsonFieldsInstance.
 
 (* Object form: pg.from_json (pg.to_json v) is v, for every value outside the reserved encodings. *)
 Theorem C05_json_roundtrip : forall q ct v, no_quirks q -> ct_ok ct = true -> ser_ok ct v = true ->
@@ -164,3 +165,40 @@ Print Assumptions C05_lineseq_newline_record_refuted.
 Theorem C05_seq_append_read : forall h p, records_at (fst (srun s_empty h)) p = appended h p.
 Proof. exact seq_append_read. Qed.
 Print Assumptions C05_seq_append_read.
+
+(* ---- value specs, key specs, Field and Schema: to_json_dict(exclude_default=True) against cls(kwargs) ------ *)
+(* For any class whose keyword table passes the static check, dropping the fields that hold their exclusion
+   constant and constructing the class again from the remaining keywords gives every serialized parameter its
+   value back. *)
+Theorem C05_spec_fields_roundtrip : forall c on o,
+  class_ok c = true -> respects c o -> normal c o -> regenerated c on o ->
+  exists kws, construct c (emit (cd_fields c) on o) = Some kws /\
+              forall f, In f (cd_fields c) -> slookup (fd_key f) kws = Some (o (fd_key f)).
+Proof. exact fields_roundtrip. Qed.
+Print Assumptions C05_spec_fields_roundtrip.
+
+(* The tables regenerated from the current value_specs.py / class_schema.py / key_specs.py pass the check. *)
+Theorem C05_spec_tables_ok : table_ok classes = true.
+Proof. exact generated_tables_ok. Qed.
+Print Assumptions C05_spec_tables_ok.
+
+Theorem C05_spec_generated_roundtrip : forall c on o, In c classes ->
+  respects c o -> normal c o -> regenerated c on o ->
+  exists kws, construct c (emit (cd_fields c) on o) = Some kws /\
+              forall f, In f (cd_fields c) -> slookup (fd_key f) kws = Some (o (fd_key f)).
+Proof. exact generated_fields_roundtrip. Qed.
+Print Assumptions C05_spec_generated_roundtrip.
+
+(* The two defects of this family found on the unchanged tree, as tables: rejected by the check, and not loadable. *)
+Theorem C05_enum_without_default_refuted :
+  class_ok enum_before_fix = false /\
+  construct enum_before_fix (emit (cd_fields enum_before_fix) (fun _ => true)
+                               (fun k => if str_eqb k s_default then VConst CMissing else if str_eqb k s_frozen then VConst CFalse else VOther 1)) = None.
+Proof. exact enum_without_default_refuted. Qed.
+Print Assumptions C05_enum_without_default_refuted.
+
+Theorem C05_schema_without_fields_refuted :
+  class_ok schema_before_fix = false /\
+  construct schema_before_fix (emit (cd_fields schema_before_fix) (fun _ => true) (fun _ => VConst CNil)) = None.
+Proof. exact schema_without_fields_refuted. Qed.
+Print Assumptions C05_schema_without_fields_refuted.
